@@ -80,7 +80,7 @@ theorem closed_IdInv : Closed (fun s => s.data.IdInv) where
     · exact IdInv_of_same_ids h.out (by simp [setRetainedWritten, modifyFirst_map_id]) rfl
   takePkt := by intro s h; show (s.takePkt.1.data).IdInv; rw [(Session.takePkt_data s).1]; exact h
   handle := by intro s p h; show ((s.handle p).1.data).IdInv; rw [Session.handle_fst_data]; exact handlePacket_IdInv s.data s.rt p h
-  handleDisconnect := by intro s h; exact ⟨IdInv_armReplay h.out, h.pid⟩
+  handleDisconnect := by intro s h; exact ⟨IdInv_rearm h.out, h.pid⟩
   activate := by
     intro s sp block now h
     unfold Session.activate
@@ -90,7 +90,7 @@ theorem closed_IdInv : Closed (fun s => s.data.IdInv) where
       · exact ⟨IdInv_clear s.data.outbound, by simp [SessionData.reset]⟩
       · exact h
     split
-    · exact ⟨IdInv_armReplay h0.out, h0.pid⟩
+    · exact ⟨IdInv_rearm h0.out, h0.pid⟩
     · exact ⟨h0.out, h0.pid⟩
   alloc := by
     intro s h
@@ -129,6 +129,6 @@ theorem closed_IdInv : Closed (fun s => s.data.IdInv) where
     · simp at hw
     · simp at hw; rw [← hw.1]; exact h
   commit := by intro s bytes h; exact h
-  beginConnect := by intro s h; exact ⟨IdInv_armReplay h.out, h.pid⟩
+  beginConnect := by intro s h; exact ⟨IdInv_rearm h.out, h.pid⟩
   setPid := by intro s n h1 h2 h; exact ⟨h.out, ⟨h1, h2⟩⟩
 end Minimq
